@@ -225,10 +225,10 @@ func c12brokerFlow(c *core.Ctx) {
 					idx = append(idx, fmt.Sprint(k))
 				}
 				_, _, log := run(seq, true)
+				// (the publisher uses a fresh identifier for every message here, so equal
+				// identifiers towards the subscriber would not be the listed finding about
+				// forwarded identifiers, which needs two publishers choosing the same one)
 				key := "C12 broker-flow :: " + violClass(v)
-				if strings.Contains(v, "carry the same packet identifier") {
-					key = KnownForwardIDs
-				}
 				if c.Violate(key, core.Replay{Scenario: "broker-flow: " + strings.Join(idx, " "), Message: v, Log: append(names, log...)}) {
 					return
 				}
